@@ -29,6 +29,7 @@ def crash_ops(alpha, tier):
         ("remove_all",),
         ("drop", "n"),
         ("get", ("cmp", "tags", ("a",), "==", x), None),                     # early-stopping read
+        ("len",),                                                            # would populate a length cache
     ]
     if tier != "quick":
         ops += [
